@@ -326,26 +326,28 @@ def shiftPos (e : Edit) (p : Nat × Nat) : Option (Nat × Nat) :=
 
 /-! #### parser for the reference grammar (inverse of `render`; accepts either case, leading zeros) -/
 
-/-- one endpoint: optional `$`, letters, optional `$`, digits; either part may be missing -/
-def parseEnd (s : Str) : Option (Option ColEnd × Option RowEnd) :=
-  let d1 := match s with | c :: _ => isDollar c | [] => false
-  let s1 := if d1 then s.drop 1 else s
+def headDollar (s : Str) : Bool := match s with | c :: _ => isDollar c | [] => false
+def stripDollar (s : Str) : Str := if headDollar s then s.drop 1 else s
+
+/-- `$?digits` -/
+def parseRowPart (s : Str) : Option RowEnd :=
+  (digitsVal (stripDollar s)).map (fun n => ⟨headDollar s, n⟩)
+
+/-- what follows the optional leading `$` of an endpoint -/
+def parseEndCore (d1 : Bool) (s1 : Str) : Option (Option ColEnd × Option RowEnd) :=
   let letters := s1.takeWhile isLetter
   let s2 := s1.dropWhile isLetter
-  if letters.isEmpty then
-    match digitsVal s1 with
-    | some r => some (none, some ⟨d1, r⟩)
-    | none => none
+  if letters.isEmpty then (digitsVal s1).map (fun n => (none, some ⟨d1, n⟩))
   else
     match colRaw letters with
     | none => none
     | some cn =>
-      if s2.isEmpty then some (some ⟨d1, cn⟩, none) else
-      let d2 := match s2 with | c :: _ => isDollar c | [] => false
-      let s3 := if d2 then s2.drop 1 else s2
-      match digitsVal s3 with
-      | some r => some (some ⟨d1, cn⟩, some ⟨d2, r⟩)
-      | none => none
+      if s2.isEmpty then some (some ⟨d1, cn⟩, none)
+      else (parseRowPart s2).map (fun r => (some ⟨d1, cn⟩, some r))
+
+/-- one endpoint: optional `$`, letters, optional `$`, digits; either part may be missing -/
+def parseEnd (s : Str) : Option (Option ColEnd × Option RowEnd) :=
+  parseEndCore (headDollar s) (stripDollar s)
 
 def parseRef (s : Str) : Option Ref :=
   match splitColon s with
